@@ -109,9 +109,12 @@ DoDelete(s, o) ==
     [] OTHER -> R([AutoBegin(s) EXCEPT !.sdel = @ \cup {o}], "ok")
 \* deviation g: _expunge_states pops a deleted state only from the innermost transaction's snapshot
 DropFromFrames(tx, o) == [i \in 1..Len(tx) |-> IF "g" \in Dev /\ i < Len(tx) THEN tx[i] ELSE [tx[i] EXCEPT !.deleted = @ \ {o}]]
+\* _detach_states looks at _deleted before it looks at the missing key: a pending object that carries the stale _deleted flag of
+\* deviation a leaves the session with deleted_to_detached instead of pending_to_transient
+PendEv(s, o) == IF s.wasdel[o] THEN "deleted_to_detached" ELSE "pending_to_transient"
 \* Session._expunge_states([o]) for an attached object (expunge, make_transient)
 ExpungeOne(s, o) ==
-  CASE s.life[o] = "pending" -> Ev([s EXCEPT !.new = RemoveSeq(@, o), !.life[o] = "transient"], "pending_to_transient", o)
+  CASE s.life[o] = "pending" -> Ev([s EXCEPT !.new = RemoveSeq(@, o), !.life[o] = "transient"], PendEv(s, o), o)
     [] s.life[o] = "persistent" -> Ev([ImapDel(s, o) EXCEPT !.sdel = @ \ {o}, !.life[o] = "detached", !.untr = @ \ {o}], "persistent_to_detached", o)
     [] OTHER -> Ev([ImapDel(s, o) EXCEPT !.tx = DropFromFrames(@, o), !.sdel = @ \ {o}, !.life[o] = "detached", !.untr = @ \ {o}], "deleted_to_detached", o)
 DoExpunge(s, o) == IF ~Attached(s, o) THEN R(s, "InvalidRequestError") ELSE R(ExpungeOne(s, o), "ok")
@@ -126,14 +129,15 @@ Restore1(s, f) ==      \* step 1: _expunge_states(f.new | session._new, to_trans
       hasKey(o) == s.life[o] \in {"persistent", "deleted"} \/ (s.life[o] = "detached" /\ s.key[o] # NoKey)
       newLife(o) == IF o \in X /\ (s.life[o] = "pending" \/ hasKey(o)) THEN "transient" ELSE s.life[o]
       \* deviation h: _detach_states takes every key-less state of the snapshot for pending, also one make_transient() already took out
-      evP == {x \in X : s.life[x] = "pending" \/ (s.life[x] = "transient" /\ "h" \in Dev)}
+      evP0 == {x \in X : s.life[x] = "pending" \/ (s.life[x] = "transient" /\ "h" \in Dev)}
+      evP == {x \in evP0 : ~s.wasdel[x]}
       \* deviation f2: a state expunged after its flush is still announced as persistent_to_transient / deleted_to_detached
       detT == IF "f2" \in Dev THEN {x \in X : s.life[x] = "detached" /\ s.key[x] # NoKey /\ ~s.wasdel[x]} ELSE {}
       detD == IF "f2" \in Dev THEN {x \in X : s.life[x] = "detached" /\ s.key[x] # NoKey /\ s.wasdel[x]} ELSE {}
       \* deleted -> transient (INSERT and DELETE both rolled back) is announced as deleted_to_detached: read as "evicted, then
       \* stripped of its identity" like make_transient() - accepted by LifecycleChain's silent detached -> transient step
       evT == {x \in X : s.life[x] = "persistent"} \cup detT
-      evD == detD \cup {x \in X : s.life[x] = "deleted"}
+      evD == detD \cup {x \in X : s.life[x] = "deleted"} \cup {x \in evP0 : s.wasdel[x]}
       gone == {o \in X : hasKey(o)}
       s1a == [s EXCEPT !.life = [o \in Objs |-> newLife(o)],
                !.imap = [k \in Keys |-> IF s.imap[k] \in X THEN NoObj ELSE s.imap[k]],
@@ -370,7 +374,7 @@ DoClose(s) ==
   IN R(GAbort([s EXCEPT !.tx = <<>>, !.work = s.committed, !.needrb = FALSE, !.new = <<>>, !.sdel = {}, !.untr = {},
                  !.imap = [k \in Keys |-> NoObj],
                  !.life = [o \in Objs |-> IF o \in P THEN "transient" ELSE IF o \in M \cup DD THEN "detached" ELSE s.life[o]],
-                 !.ev = @ \cup {<<"pending_to_transient", o, 1>> : o \in P} \cup {<<"persistent_to_detached", o, 1>> : o \in {x \in M : ~s.wasdel[x]}}
+                 !.ev = @ \cup {<<PendEv(s, o), o, 1>> : o \in P} \cup {<<"persistent_to_detached", o, 1>> : o \in {x \in M : ~s.wasdel[x]}}
                           \cup {<<"deleted_to_detached", o, 1>> : o \in {x \in M : s.wasdel[x]} \cup DD}]), "ok")
 \* ------------------------------------------------------------------ C32: fail, roll back, repeat the same work
 ObjOrder == SelectSeq(<<"o1", "o2", "o3">>, LAMBDA o : o \in Objs)
